@@ -254,7 +254,7 @@ fn gated_message(name: &str, sc: ServiceCookie, oc: ObjectCookie) -> Message {
     let unit = || SerializedValue::serialize(()).unwrap();
     match name {
         "AbortFunctionCall" => Message::AbortFunctionCall(AbortFunctionCall { serial: 40 }),
-        "RegisterIntrospection" => Message::RegisterIntrospection(RegisterIntrospection { value: unit() }),
+        "RegisterIntrospection" => Message::RegisterIntrospection(RegisterIntrospection { value: SerializedValue::serialize(&std::collections::HashSet::<TypeId>::new()).unwrap() }),
         "QueryIntrospection" => Message::QueryIntrospection(QueryIntrospection { serial: 41, type_id: TypeId(Uuid::from_u128(1)) }),
         "CreateService2" => Message::CreateService2(CreateService2 { serial: 42, object_cookie: oc, uuid: ServiceUuid(Uuid::from_u128(0xB2)), value: SerializedValue::serialize(ServiceInfo::new(1)).unwrap() }),
         "QueryServiceInfo" => Message::QueryServiceInfo(QueryServiceInfo { serial: 43, cookie: sc }),
